@@ -195,6 +195,7 @@ def run_cases(cases, workdir, tag, threads=16, verbose_ids=None, owned_file=None
         case, how, log = isolate_death(cases, workdir)
         raise EngineDied(case, how, (log or out)[-3000:])
     results, other = _drive(cases_file, owned_file)
+    _span_notes(results, cases_file)
     if owned_file is None:
         # inert attributes of the macro's own on generated items (Obs.stripOwned): an inert built-in attribute found on
         # a generated item of some case whose input does not contain it is the macro's, not a copy of the user's;
@@ -214,9 +215,27 @@ def run_cases(cases, workdir, tag, threads=16, verbose_ids=None, owned_file=None
             LAST_OWNED[:] = [bytes.fromhex(h).decode() for h in owned]
             LAST_OWNED_FILE[0] = ofile
             results, other = _drive(cases_file, ofile)
+            _span_notes(results, cases_file)
         else:
             LAST_OWNED_FILE[0] = None
     return results, cases_file, other
+
+
+def _span_notes(results, cases_file):
+    """E1's view of hygiene: forwarded identifiers of generated method bodies whose span is not the span of the
+    parameter declaration they are spelled like (written by the harness to `<cases>.spans`); field `HYG`"""
+    path = cases_file + ".spans"
+    if not os.path.exists(path):
+        return
+    for line in open(path):
+        cid, _, note = line.rstrip("\n").partition("\t")
+        if cid in results and note:
+            results[cid]["HYG"] = note
+
+
+# which properties a span mismatch of a forwarded identifier belongs to, by input mode: the model forwards *the
+# method's own parameter identifiers* (C01 fn / mod, C16 their names; C06 entraited traits; C07 impl blocks)
+HYG_PROPS = {"fn": ("C01", "C16"), "mod": ("C01", "C16"), "trait": ("C06",), "impl": ("C07",)}
 
 
 LAST_OWNED = []          # wire text of the macro-owned inert attributes of the last run_cases
@@ -454,6 +473,13 @@ def run_check(prop, tier, seed):
         if prop in ("C17", "C20") and d.get("real") == "ok" and d.get("tok") == "1" and c is not None:
             # non-trivial: the real macro expanded the case and the expansion equals the model's token for token
             nontrivial.add((c[1], c[2], c[3]))
+        if d.get("HYG") and prop in HYG_PROPS.get(mode, ()):
+            # token-invisible: what the other span does to name resolution is rustc's to say - if a compile-and-run
+            # probe of the property fails, that probe is the failing input; otherwise the correspondence is broken
+            # without one (same rule as for unrecognised body spellings)
+            stats["span_mismatch"] = stats.get("span_mismatch", 0) + 1
+            body_only.append((cid, "a forwarded identifier of a generated method body does not carry the span of the parameter "
+                                   "it is spelled like (%s)" % d["HYG"][:160]))
         trip = d.get(prop)
         if trip:
             k, pm, pr = trip[0], trip[1], trip[2]
